@@ -78,7 +78,8 @@ prop(
     bounds="0 or 1 stored sample (all 5 change kinds) over 2 instances, all three masks any non-empty subset, max_samples 1..=4 or "
            "i32::MAX, specific handle none / known / unknown; generation counts 0..10^6; handles with 2 symbolic bytes, writer "
            "guids with 1 symbolic byte; unwind 3 with the loops over the collection being built capped at 2 iterations (per-loop "
-           "bounds, unwinding assertions on); the thorough tier has no deeper bound (see outside)",
+           "bounds, unwinding assertions on). Quick tier: read with 1 stored sample and the KF-C20-1 known/rest pair; thorough adds take "
+           "with 1 stored sample, read/take on the empty cache and the stub-equivalence proof (no deeper bound exists, see outside)",
     outside="TWO OR MORE STORED SAMPLES: measured, one read of 2 stored samples over 2 instances with unwind 3 exhausts 13 GB in "
             "the SAT conversion (1 sample: 3.5 million variables / 7 GB with a uniform bound 3, about 1.5 million with the collection loops capped at 2), so "
             "the parts of the statement that need two samples -- the cut at max_samples inside a longer matching list, the order "
@@ -97,8 +98,8 @@ prop(
         "I1: one InstanceState per handle and every stored sample has its InstanceState (add_reader_change creates it before storing)",
         "I2: a stored sample's generation counts are <= its instance's current counts and do not decrease along the storage order of an instance (BY_RECEPTION_TIMESTAMP)",
     ],
-    timeout={"quick": 1500, "thorough": 3000},
-    mem_gb=12,
+    timeout={"quick": 900, "thorough": 3000},
+    mem_gb=10,
     unwind_patterns=_CAPS,
 )
 
@@ -124,7 +125,8 @@ prop(
         "triggers (single writer: write then unregister gives NOT_ALIVE_NO_WRITERS)."),
     bounds="one add_reader_change (two for the unregister obligations) on a reader with 2 known instances and 1 stored sample; "
            "generation counts 0..10^6; all 5 change kinds; handles with 2 symbolic bytes, writer guids with 1 symbolic byte; "
-           "read/take half: bounds of C20; unwind 4",
+           "read/take half: bounds of C20; unwind 4. Quick tier: the one-step pair (KF-C22-1 known/rest); thorough adds the two chained-call "
+           "unregister obligations (KF-C22-2 known/rest), take with 1 stored sample (C20 harness) and the stub-equivalence proof",
     outside="histories are covered only through the one-step induction over the symbolic instance state (the state of an instance "
             "is exactly view state, instance state and the two counts); generation counts near i32::MAX (increment overflow needs "
             "2^31 rebirths); reader QoS other than SHARED ownership / KEEP_ALL / unlimited / BY_RECEPTION_TIMESTAMP / no time filter "
@@ -140,8 +142,8 @@ prop(
         "I1: one InstanceState per handle (asserted again after the step)",
         "reader QoS: SHARED ownership, KEEP_ALL, unlimited resource limits, BY_RECEPTION_TIMESTAMP, minimum_separation 0",
     ],
-    timeout={"quick": 1500, "thorough": 3000},
-    mem_gb=12,
+    timeout={"quick": 900, "thorough": 3000},
+    mem_gb=10,
     unwind_patterns=_CAPS,
 )
 
@@ -165,8 +167,10 @@ prop(
         "samples. For the negated trigger the property is proved."),
     bounds="next_instance: 3 instances (handles with 2 symbolic bytes: first and last byte of the 16, i.e. both ends of the "
            "lexicographic order), 2 stored samples (quick) / 3 (thorough), masks any non-empty subset, previous handle none or "
-           "any 2-symbolic-byte handle, unwind 18; end-to-end wrapper: 2 instances in either storage order, 1 stored sample, the "
-           "singleton masks matching it, max_samples 1, previous handle none, unwind 3 with the collection loops capped at 2",
+           "any 2-symbolic-byte handle, unwind 4; end-to-end wrapper: 2 instances in either storage order, 1 stored sample, the "
+           "singleton masks matching it, max_samples 1, previous handle none, unwind 3 with the collection loops capped at 2. "
+           "Quick tier: next_instance known/rest pair with 2 stored samples (unwind 4 with the comparison stubs); thorough adds 3 "
+           "stored samples, the end-to-end wrapper pair and the stub-equivalence proof",
     outside="more than 3 instances; 'repeated calls visit every instance exactly once' is implied by the single-call statement "
             "(each call returns an instance strictly greater than the previous one) and not executed as a sequence; "
             "take_next_instance end to end (same composition with take; the take path of create_sample_collection is C20); the "
@@ -180,8 +184,8 @@ prop(
         "I1: one InstanceState per handle and every stored sample has its InstanceState",
         "the wrapper UserDefinedDataReader::{read,take}_next_instance is mirrored, not executed (source guard on its text)",
     ],
-    timeout={"quick": 1500, "thorough": 3000},
-    mem_gb=12,
+    timeout={"quick": 900, "thorough": 3000},
+    mem_gb=10,
     unwind_patterns=_CAPS,
 )
 
@@ -205,7 +209,10 @@ prop(
         "triggers the step property is proved."),
     bounds="one add_reader_change; 1 instance (fully symbolic view/instance state, counts 0..10^6), 2 matched writers (guids "
            "with 1 symbolic byte, strengths full i32), owner either of them, change of any of the 5 kinds from either writer; "
-           "tie obligation: 2 readers x 1 call; unwind 4",
+           "tie obligation: 2 readers x 1 call; unwind 4. Quick tier (the symbolic-kind step needs 5 GB): the same step with a concrete "
+           "kind -- data (ALIVE) from either writer [main obligation], NOT_ALIVE_DISPOSED from the weaker non-owner [KF-C24-1], "
+           "NOT_ALIVE_UNREGISTERED from the owner [KF-C24-2] -- and the unmatched-owner step [KF-C24-3]; thorough: all 5 kinds "
+           "symbolic with the full triggers and their negations, the tie obligation, the free-instance step, both stub-equivalence proofs",
     outside="ownership release on a missed deadline (DcpsDomainParticipant::check_missed_reader_deadline, a one-line retain on "
             "instance_ownership inside the participant-level timer path: needs the whole participant aggregate) and the deadline "
             "timestamp side of KF-C24-1 (a non-owner's change refreshes last_received_time_stamp); more than two writers / one "
@@ -221,6 +228,6 @@ prop(
         "I: at most one ownership record per instance (asserted again after the step); except in c24_owner_unmatched__known the recorded owner is a matched writer",
         "reader QoS: EXCLUSIVE ownership, KEEP_ALL, unlimited resource limits, BY_RECEPTION_TIMESTAMP, minimum_separation 0",
     ],
-    timeout={"quick": 1500, "thorough": 3000},
-    mem_gb=12,
+    timeout={"quick": 900, "thorough": 3000},
+    mem_gb=10,
 )
